@@ -11,6 +11,7 @@ from hypothesis import strategies as st
 import hdc.algo  # noqa: F401
 from hdc.algo import ops
 from harness import gens, refs, smooth
+from harness.core import Violation
 from harness.util import call, req, fmt
 from props import c02
 
@@ -23,7 +24,7 @@ RULE = ("Hypothesis draws series (10 classes, n 5..200, >=5 valid cells) x gap p
         "4-pass bisquare algorithm with residual statistics over valid cells only; degenerate families (constant, exactly linear, "
         "flat+spikes, two-level; far from zero; with/without gaps) must come back as the constant / the line / a finite curve, "
         "never the all-0 / all--32768 cast-of-NaN patterns; placeholder independence; whitswcv defaults, "
-        "naming and sgrid. Non-trivial: gaps, or grid != arange(-2,2), or degenerate family, or robust; distinct by content hash.")
+        "naming and sgrid; every robust band must satisfy the normal-equation consistency test (>= 2 valid cells can carry weight, missing cells none). Non-trivial: gaps, or grid != arange(-2,2), or degenerate family, or robust; distinct by content hash.")
 ASSUME = ["LAPACK banded solvers as reference", "robust equality oracle only where MAD > 0 in every pass and both reference solvers agree"]
 
 
@@ -78,24 +79,39 @@ def sub_robust_ref(case, rec=None):
     _on_grid("ws2d%s(robust)" % variant[:-2], lopt, llas)
     req(out.dtype == np.int16, "robust band dtype %s" % out.dtype)
     with np.errstate(all="ignore"):
-        a = refs.robust_gcv(y, valid, llas, p, solver=refs.banded_solve)
-        b = refs.robust_gcv(y, valid, llas, p, solver=refs.lu_solve)
-    if a["degenerate"] or b["degenerate"]:
-        return "mad_zero"
-    if a["lopt"] != b["lopt"] or not np.array_equal(np.rint(a["z"]), np.rint(b["z"])) or not np.array_equal(a["weights"] > 0, b["weights"] > 0):
+        ca = refs.robust_gcv_candidates(y, valid, llas, p, solver=refs.banded_solve)
+        cb = refs.robust_gcv_candidates(y, valid, llas, p, solver=refs.lu_solve)
+    if not ca or len(ca) != len(cb):
         return "fragile_reference_solvers_disagree"
-    z = a["z"]
-    if not np.isfinite(z).all() or np.max(np.abs(z)) >= 32766:
-        return "curve_leaves_int16"
-    tau = refs.tie_tau(z, refs.cond2(y.size, a["lopt"], np.maximum(a["weights"] * (min(p, 1 - p) if p is not None else 1.0), 0)))
-    if tau >= 0.25:
-        return "unresolvable_conditioning"
-    if a["margin"] <= max(10 * tau, 1e-6):
-        return "fragile_decision"
-    req(abs(lopt - a["lopt"]) <= 1e-9 * a["lopt"], "robust %s: reported lambda %r, model of the robust algorithm on valid-cell residuals "
-        "selects %r (n=%d, %d valid)" % (variant, lopt, a["lopt"], y.size, int(valid.sum())), "robust lopt differs from model")
-    smooth.compare_to_curve("robust %s (n=%d, %d valid, lambda=%.6g, p=%r)" % (variant, y.size, int(valid.sum()), lopt, p), out, z, tau, rec)
-    return None
+    if min(a["best_score"] for a in ca) <= 1e-10 * (1.0 + float(np.max(np.abs(y[valid]))) ** 2):
+        return "selection_tie_exact_fit"  # (near-)interpolating fit: every lambda scores ~0, the selection is tied by nature
+    taus = []
+    for a, b in zip(ca, cb):
+        if a["lopt"] != b["lopt"] or not np.array_equal(np.rint(a["z"]), np.rint(b["z"])) or not np.array_equal(a["weights"] > 0, b["weights"] > 0):
+            return "fragile_reference_solvers_disagree"
+        z = a["z"]
+        if not np.isfinite(z).all() or np.max(np.abs(z)) >= 32766:
+            return "curve_leaves_int16"
+        tau = refs.tie_tau(z, refs.cond2(y.size, a["lopt"], np.maximum(a["weights"] * (min(p, 1 - p) if p is not None else 1.0), 0)))
+        if tau >= 0.25:
+            return "unresolvable_conditioning"
+        if a["margin"] <= max(10 * tau, 1e-6):
+            return "fragile_decision"
+        taus.append(tau)
+    o = np.asarray(out)
+    for a, tau in zip(ca, taus):
+        if abs(lopt - a["lopt"]) <= 1e-9 * a["lopt"]:
+            ok, nties, _ = refs.rounded_matches(o, a["z"], tau)
+            if ok:
+                if rec is not None:
+                    rec.ties += nties
+                return None if not a["problem_passes"] else "matched_fallback_candidate"
+    lams = sorted({float(a["lopt"]) for a in ca})
+    best = min(ca, key=lambda a: float(np.max(np.abs(o - np.rint(a["z"])))))
+    raise Violation("robust %s: the band is none of the %d outcomes the robust algorithm admits on valid-cell residuals (n=%d, %d valid, p=%r): "
+                    "reported lambda %r (admissible %s), band %s, closest admissible curve %s" % (
+                        variant, len(ca), y.size, int(valid.sum()), p, lopt, lams, fmt(o, 14), fmt(np.rint(best["z"]).astype(int), 14)),
+                    signature="robust band differs from model")
 
 
 def sub_robust_degenerate(case):
@@ -124,6 +140,25 @@ def sub_robust_degenerate(case):
         # No range bound is demanded: cells rejected by the bisquare weights at the edges make the curve
         # extrapolate linearly, which legitimately leaves the data range (first version of this check demanded
         # |out - median| <= 2*range+1 and raised a false alarm on such a case; see DESIGN C05).
+
+
+def sub_robust_curve(case):
+    """The robust band must be (the rounding of) a Whittaker curve at the reported lambda that is supported by at least two
+    weighted valid cells and gives missing cells no weight - whatever weights the implementation derives."""
+    y, valid, nd, yy, llas, p = _setup(case)
+    variant = "wcvp_r" if p is not None else "wcv_r"
+    out, lopt = smooth.run_variant(variant, yy, nd, {"llas": llas, "p": p})
+    _on_grid("ws2d%s(robust)" % variant[:-2], lopt, llas)
+    o = np.asarray(out).astype(np.int64)
+    if np.abs(o).max() >= 32000:
+        return "curve_leaves_int16"
+    support, miss = smooth.whittaker_support(o, y, valid, lopt)
+    desc = "(n=%d, %d valid, lambda=%.6g, p=%r, y=%s -> %s)" % (y.size, int(valid.sum()), lopt, p, fmt(np.where(valid, y, np.nan), 16), fmt(o, 16))
+    req(support >= 2, "robust %s: the band is not a Whittaker curve supported by at least two weighted observations at the reported lambda "
+        "(cells that can carry weight: %d) %s" % (variant, support, desc), "robust band unsupported")
+    req(miss <= 0, "robust %s: missing cells carry weight (|D'D band| exceeds the rounding allowance by %.3g at a missing cell) %s" % (variant, miss, desc),
+        "robust missing cells weighted")
+    return None
 
 
 def sub_accessor(case):
@@ -169,7 +204,7 @@ def sub_accessor(case):
             req(sg[i, j] == want, "whitswcv sgrid (%d,%d) = %r, float32(log10(lopt)) = %r" % (i, j, sg[i, j], want), "whitswcv sgrid")
 
 
-SUBS = {"gcv": sub_gcv, "robust_ref": sub_robust_ref, "robust_degenerate": sub_robust_degenerate, "accessor": sub_accessor,
+SUBS = {"gcv": sub_gcv, "robust_ref": sub_robust_ref, "robust_degenerate": sub_robust_degenerate, "robust_curve": sub_robust_curve, "accessor": sub_accessor,
         "robust_placeholder": c02.sub_placeholder}
 
 DEFAULT_SR = {"start": -1.8, "step": 0.2, "count": 30}
@@ -222,6 +257,26 @@ def degenerate_case(draw):
 
 
 @st.composite
+def spike_case(draw):
+    """Flat / linear / noisy base far from zero (both signs) with a few spikes and gaps: the inputs on which robust weights get extreme."""
+    n = draw(st.integers(5, 80))
+    level = draw(st.sampled_from([-1, 1])) * draw(st.integers(50, 6000))
+    slope = draw(st.sampled_from([0, 0, 1, -2, 7]))
+    nz = draw(st.sampled_from([0, 0, 1, 5, 60]))
+    y = [level + slope * t + (draw(st.integers(-nz, nz)) if nz else 0) for t in range(n)]
+    ns = draw(st.integers(1, 3))
+    for q in draw(st.lists(st.integers(0, n - 1), min_size=ns, max_size=ns, unique=True)):
+        y[q] += draw(st.sampled_from([-1, 1, 1])) * draw(st.integers(100, 3000))
+    y = [max(-10000, min(10000, v)) for v in y]
+    g = draw(gens.gap_mask(n, classes=["none", "isolated", "isolated", "runs", "leading", "trailing", "alternating"], min_valid=5))
+    nd = gens.placeholder_for(y, g["valid"], draw(st.sampled_from(["below", "above"])))
+    case = {"y": y, "valid": g["valid"], "nodata": nd, "gcls": g["gcls"], "sr": draw(_sr()), "ycls": "spikes"}
+    if draw(st.booleans()):
+        case["p"] = draw(gens.pvals)
+    return case
+
+
+@st.composite
 def acc_case(draw):
     ny, nx = draw(st.integers(1, 2)), draw(st.integers(1, 3))
     nt = draw(st.integers(5, 50))
@@ -264,15 +319,28 @@ def run(ctx):
         why = sub_robust_ref(case, rec)
         if why:
             rec.discard("robust_ref", why)
+        if why == "matched_fallback_candidate":
+            why = None
+            rec.case("robust_ref", None, count=0, cls="matched_a_fallback_outcome")
         rec.case("robust_ref", case, nontrivial=why is None, cls=["wcvp_r" if "p" in case else "wcv_r", "gap:" + case["gcls"], "y:" + case["ycls"]])
 
-    ctx.given("robust_ref", gcase(ctx.n(100, 200), classes=["seasonal", "walk", "iid", "step", "seasonal"]), ctx.n(500, 8000), fn=f_rob)
+    ctx.given("robust_ref", st.one_of(gcase(ctx.n(100, 200), classes=["seasonal", "walk", "iid", "step", "seasonal"]), spike_case()),
+              ctx.n(700, 10000), fn=f_rob)
 
     def f_deg(case):
         rec.case("robust_degenerate", case, nontrivial=True, cls=["family:" + case["family"], "gap:" + case["gcls"], "p" if "p" in case else "nop"])
         sub_robust_degenerate(case)
 
     ctx.given("robust_degenerate", degenerate_case(), ctx.n(600, 8000), fn=f_deg)
+
+    def f_cv(case):
+        why = sub_robust_curve(case)
+        if why:
+            rec.discard("robust_curve", why)
+        rec.case("robust_curve", case, nontrivial=why is None, cls=["y:" + case["ycls"], "gap:" + case["gcls"], "p" if "p" in case else "nop"])
+
+    ctx.given("robust_curve", st.one_of(spike_case(), spike_case(), gcase(ctx.n(100, 200), classes=["seasonal", "walk", "iid", "step", "flat_spikes"])),
+              ctx.n(900, 12000), fn=f_cv)
 
     def f_ph(case):
         rec.case("robust_placeholder", case, nontrivial=not all(case["valid"]), cls=[case["variant"], "gap:" + case["gcls"]])
